@@ -250,20 +250,19 @@ def run_names(sub, task):
     for form in case_forms(name, tier):
         companion = NAME_COMPANION[0] if form.upper() != NAME_COMPANION[0].upper() else NAME_COMPANION[0] + '2'
         for ty in TYPES:
-            for style in ((0,) if tier == 'quick' else (0, 1, 2)):
-                for pos in (0, 1):
-                    attr_names = [companion]
-                    attr_types = [NAME_COMPANION[1]]
-                    attr_names.insert(pos, form)
-                    attr_types.insert(pos, spell(ty, style))
-                    sub.count('schemas')
-                    sub.count('name_schemas')
-                    for npos, kw in shapes(2):
-                        for gen in NAME_GENS[tier]:
-                            for route in ROUTES:
-                                run_creation(sub, dict(part='create', fam='names', types=attr_types, attr_names=attr_names,
-                                                       pool_name=name, at=pos, special=None, unknown=None, npos=npos, kw=kw,
-                                                       gen=gen, route=route, names=0, nones=False))
+            for pos in (0, 1):
+                attr_names = [companion]
+                attr_types = [NAME_COMPANION[1]]
+                attr_names.insert(pos, form)
+                attr_types.insert(pos, spell(ty, 0))
+                sub.count('schemas')
+                sub.count('name_schemas')
+                for npos, kw in shapes(2):
+                    for gen in NAME_GENS[tier]:
+                        for route in ROUTES:
+                            run_creation(sub, dict(part='create', fam='names', types=attr_types, attr_names=attr_names,
+                                                   pool_name=name, at=pos, special=None, unknown=None, npos=npos, kw=kw,
+                                                   gen=gen, route=route, names=0, nones=False))
     return None
 
 
